@@ -1,6 +1,10 @@
 package vpriv
 
-import "testing"
+import (
+	"errors"
+	"sync/atomic"
+	"testing"
+)
 
 type inner struct {
 	n    int
@@ -45,5 +49,32 @@ func TestCloneRestoreFingerprint(t *testing.T) {
 	o.parts[0].data[0] = 'Q'
 	if c.parts[0].data[0] != 'a' {
 		t.Fatal("object aliases the snapshot after restore")
+	}
+}
+
+func TestScalars(t *testing.T) {
+	type obj struct {
+		name   string
+		n      int
+		ok     bool
+		err    error
+		active atomic.Int32
+		hot    atomic.Pointer[int]
+		shim   struct{ r atomic.Int64 }
+		m      map[string]int
+	}
+	o := &obj{name: "a", n: 3, m: map[string]int{"x": 1}}
+	o.active.Store(7)
+	o.shim.r.Store(-2)
+	got := Scalars(o)
+	want := ` name="a" n=3 ok=false err=nil active.v=7 hot.v=nil shim.v=-2`
+	if got != want {
+		t.Fatalf("Scalars = %q, want %q", got, want)
+	}
+	x := 1
+	o.hot.Store(&x)
+	o.err = errors.New("boom")
+	if got := Scalars(o); got != ` name="a" n=3 ok=false err=err(boom) active.v=7 hot.v=set shim.v=-2` {
+		t.Fatalf("Scalars = %q", got)
 	}
 }
